@@ -1,7 +1,7 @@
 CONSTANTS
   LineIds = {1, 2}
   MaxLen = 2
-  MaxDocs = 2
+  MaxDocs = 3
   MaxEdits = 2
   SharedTokens = FALSE
   LeftoverRunBuffer = FALSE
